@@ -475,7 +475,7 @@ package rsm
 //@ extern github.com/lni/vfs (fs FS) Remove
 //@ ghostset gRemoved := store(old(gRemoved), name, true)
 //@ extern github.com/lni/vfs (fs FS) RemoveAll
-//@ ghostset gRemoved := store(old(gRemoved), dir, true)
+//@ ghostset gRemoved := store(old(gRemoved), name, true)
 //@ extern github.com/lni/vfs (fs FS) Rename
 //@ extern github.com/lni/vfs (fs FS) PathDir
 //@ extern github.com/lni/vfs (fs FS) PathBase
